@@ -181,7 +181,9 @@ impl<'a> Visitor for Op<'a> {
                         match back {
                             Err(_) => format!("ok {} readpanic", hex(&bytes)),
                             Ok(Err(k)) => format!("ok {} readerr:{k}", hex(&bytes)),
-                            Ok(Ok(v2)) => format!("ok {} {} eq:{}", hex(&bytes), dump(&v2), if v2 == v { 1 } else { 0 }),
+                            // equality of the VALUES (their dumps): the derived `PartialEq` of `BitVec` also
+                            // compares octets of the buffer behind the bit length, which are no part of the value
+                            Ok(Ok(v2)) => format!("ok {} {} eq:{}", hex(&bytes), dump(&v2), if dump(&v2) == dump(&v) { 1 } else { 0 }),
                         }
                     }
                 }
